@@ -175,9 +175,9 @@ def gen_histories(rng, quick):
     def split(ops, probes):
         """cut the op list into 1-3 process segments; cleanup ops sprinkled in"""
         ops = list(ops)
-        for _ in range(int(rng.integers(0, 2))):
+        for _ in range(int(rng.choice([0, 0, 1]))):
             ops.insert(int(rng.integers(0, len(ops) + 1)), ['cleanup', seed()])
-        k = int(rng.integers(0, 3))
+        k = int(rng.choice([0, 0, 1, 2]))
         cuts = sorted(set(int(c) for c in rng.integers(0, len(ops) + 1, size=k)))
         segs, prev = [], 0
         for c in cuts + [len(ops)]:
@@ -209,11 +209,11 @@ def gen_histories(rng, quick):
         ops = []
         for _ in range(int(rng.integers(1, 5))):
             order, odd = combos[int(rng.integers(len(combos)))]
-            reg = rregs[int(rng.integers(len(rregs)))]
+            reg = None if rng.random() < 0.4 else rregs[int(rng.integers(len(rregs)))]
             if reg == 'pos' and odd and order > 1:
                 reg = None
             direction = 'inverse' if (reg is not None or rng.random() < 0.7) else 'forward'
-            wk = [None, None, 'ring', 'rim', 'soft'][int(rng.integers(5))]
+            wk = [None, 'ring', 'rim', 'ring', 'soft'][int(rng.integers(5))]
             ops.append(['rbasex', Rmax, order, odd, reg, wk, direction, usebd and bool(rng.random() < 0.9), seed()])
         used = sorted(set((o[2], o[3]) for o in ops))
         probes = [['rbasex', Rmax, int(o), bool(d), 'inverse' if rng.random() < 0.7 else 'forward', usebd, seed()] for o, d in used]
